@@ -602,3 +602,259 @@ Proof.
   rewrite Hr. cbn [find]. unfold route_contains. cbn [r_dest r_mask].
   rewrite !Z.land_0_r. rewrite Z.eqb_refl. cbn [r_gw]. exact Hg.
 Qed.
+
+(* ------------------------------------------------------------------ the state table *)
+
+Definition live_not_tw (s : option tcb) : Prop := exists k, s = Some k /\ k_state k <> S_TIMEWAIT.
+Definition live_fresh (now : Z) (s : option tcb) : Prop := exists k, s = Some k /\ now - k_t k <= 30000.
+(* a slot Add may overwrite: nil, TIME-WAIT, or idle for more than 30 s *)
+Definition dead (now : Z) (s : option tcb) : Prop :=
+  match s with None => True | Some k => k_state k = S_TIMEWAIT \/ now - k_t k > 30000 end.
+
+Lemma find_free_some t : forall i j, find_free t i = Some j ->
+  (i <= j < i + length t)%nat /\
+  match nth (j - i) t None with None => True | Some k => k_state k = S_TIMEWAIT end.
+Proof.
+  induction t as [|s r IH]; intros i j H; cbn [find_free] in H; [discriminate|].
+  destruct s as [k|].
+  - destruct (k_state k =? S_TIMEWAIT) eqn:E.
+    + inversion H; subst. cbn [length]. split; [lia|]. rewrite Nat.sub_diag. cbn. lia.
+    + apply IH in H. destruct H as [H1 H2]. cbn [length]. split; [lia|].
+      replace (j - i)%nat with (S (j - S i)) by lia. exact H2.
+  - inversion H; subst. cbn [length]. split; [lia|]. rewrite Nat.sub_diag. exact I.
+Qed.
+
+Lemma find_free_none t : forall i, find_free t i = None <-> Forall live_not_tw t.
+Proof.
+  induction t as [|s r IH]; intros i; cbn [find_free].
+  - split; [constructor|reflexivity].
+  - destruct s as [k|].
+    + destruct (k_state k =? S_TIMEWAIT) eqn:E.
+      * split; [discriminate|]. intros H; inversion H as [|? ? [k0 [H1 H2]] ?]; subst.
+        inversion H1; subst. lia.
+      * rewrite IH. split.
+        -- intros H; constructor; [exists k; split; [reflexivity|lia]|exact H].
+        -- intros H; inversion H; assumption.
+    + split; [discriminate|]. intros H; inversion H as [|? ? [k0 [H1 _]] ?]; discriminate.
+Qed.
+
+Lemma find_idle_some t now : forall i j, find_idle t i now = Some j ->
+  (i <= j < i + length t)%nat /\
+  match nth (j - i) t None with None => True | Some k => now - k_t k > 30000 end.
+Proof.
+  induction t as [|s r IH]; intros i j H; cbn [find_idle] in H; [discriminate|].
+  destruct s as [k|].
+  - destruct (now - k_t k >? 30000) eqn:E.
+    + inversion H; subst. cbn [length]. split; [lia|]. rewrite Nat.sub_diag. cbn. lia.
+    + apply IH in H. destruct H as [H1 H2]. cbn [length]. split; [lia|].
+      replace (j - i)%nat with (S (j - S i)) by lia. exact H2.
+  - inversion H; subst. cbn [length]. split; [lia|]. rewrite Nat.sub_diag. exact I.
+Qed.
+
+Lemma find_idle_none t now : forall i, find_idle t i now = None <-> Forall (live_fresh now) t.
+Proof.
+  induction t as [|s r IH]; intros i; cbn [find_idle].
+  - split; [constructor|reflexivity].
+  - destruct s as [k|].
+    + destruct (now - k_t k >? 30000) eqn:E.
+      * split; [discriminate|]. intros H; inversion H as [|? ? [k0 [H1 H2]] ?]; subst.
+        inversion H1; subst. lia.
+      * rewrite IH. split.
+        -- intros H; constructor; [exists k; split; [reflexivity|lia]|exact H].
+        -- intros H; inversion H; assumption.
+    + split; [discriminate|]. intros H; inversion H as [|? ? [k0 [H1 _]] ?]; discriminate.
+Qed.
+
+Lemma nth_error_set_nth_same {A} (l : list A) : forall i x, (i < length l)%nat ->
+  nth_error (set_nth l i x) i = Some x.
+Proof. induction l; intros [|i] x H; cbn in *; try lia; auto. apply IHl; lia. Qed.
+
+Lemma nth_set_nth_other {A} (l : list A) d : forall i j x, j <> i ->
+  nth j (set_nth l i x) d = nth j l d.
+Proof.
+  induction l; intros [|i] [|j] x H; cbn; try reflexivity; try lia.
+  apply IHl; lia.
+Qed.
+
+Lemma nth_app_last_other {A} (l : list A) x d j : j <> length l ->
+  nth j (l ++ [x]) d = nth j l d.
+Proof.
+  intros H. destruct (Nat.lt_ge_cases j (length l)).
+  - apply app_nth1; assumption.
+  - rewrite app_nth2 by lia. rewrite (nth_overflow l) by lia.
+    destruct (j - length l)%nat eqn:E; [lia|]. cbn. destruct n; reflexivity.
+Qed.
+
+(* Add: the slot handed out lies inside the array, holds the new connection, every other
+   slot is untouched, and what it overwrote was nil, TIME-WAIT or idle for over 30 s *)
+Lemma table_add_spec cap t now k i t' :
+  table_add cap t now k = Some (i, t') -> zlen t <= cap ->
+  0 <= Z.of_nat i < cap /\ zlen t' <= cap /\ nth_error t' i = Some (Some k) /\
+  (forall j, j <> i -> nth j t' None = nth j t None) /\ dead now (nth i t None).
+Proof.
+  unfold table_add. intros H Hc.
+  destruct (find_free t 0) as [j|] eqn:Ef.
+  - inversion H; subst. apply find_free_some in Ef. destruct Ef as [Hr Hd].
+    rewrite Nat.sub_0_r in Hd. unfold zlen in *. rewrite set_nth_length.
+    repeat split; try lia.
+    + apply nth_error_set_nth_same; lia.
+    + intros j Hj. apply nth_set_nth_other; exact Hj.
+    + unfold dead. destruct (nth i t None); [left; exact Hd|exact I].
+  - destruct (zlen t <? cap) eqn:El.
+    + inversion H; subst. rewrite zlen_app. replace (zlen [Some k]) with 1 by reflexivity.
+      unfold zlen in *. repeat split; try lia.
+      * rewrite nth_error_app2 by lia. rewrite Nat.sub_diag. reflexivity.
+      * intros j Hj. apply nth_app_last_other; exact Hj.
+      * rewrite nth_overflow by lia. exact I.
+    + destruct (find_idle t 0 now) as [j|] eqn:Ei; [|discriminate].
+      inversion H; subst. apply find_idle_some in Ei. destruct Ei as [Hr Hd].
+      rewrite Nat.sub_0_r in Hd. unfold zlen in *. rewrite set_nth_length.
+      repeat split; try lia.
+      * apply nth_error_set_nth_same; lia.
+      * intros j Hj. apply nth_set_nth_other; exact Hj.
+      * unfold dead. destruct (nth i t None); [right; exact Hd|exact I].
+Qed.
+
+(* Add refuses exactly when every slot of the array holds a live connection *)
+Lemma table_add_none_spec cap t now k :
+  table_add cap t now k = None <->
+  cap <= zlen t /\
+  Forall (fun s => exists k0, s = Some k0 /\ k_state k0 <> S_TIMEWAIT /\ now - k_t k0 <= 30000) t.
+Proof.
+  rewrite table_add_none_iff, (find_free_none t 0), (find_idle_none t now 0). split.
+  - intros (H1 & H2 & H3). split; [exact H2|].
+    rewrite Forall_forall in *. intros s Hs.
+    destruct (H1 s Hs) as [k1 [E1 N1]]. destruct (H3 s Hs) as [k2 [E2 N2]].
+    rewrite E1 in E2; inversion E2; subst. eauto.
+  - intros (H2 & H). repeat split; try exact H2; rewrite Forall_forall in *; intros s Hs;
+      destruct (H s Hs) as [k0 (E & N1 & N2)]; exists k0; auto.
+Qed.
+
+(* Get returns the first slot whose connection matches the 4-tuple (in either direction) *)
+Lemma table_get_some t sip dip sp dp : forall i0 j k,
+  table_get t i0 sip dip sp dp = Some (j, k) ->
+  (i0 <= j)%nat /\ nth_error t (j - i0) = Some (Some k) /\ tcb_match k sip dip sp dp = true /\
+  forall m, (m < j - i0)%nat ->
+    match nth_error t m with Some (Some k') => tcb_match k' sip dip sp dp = false | _ => True end.
+Proof.
+  induction t as [|s r IH]; intros i0 j k H; cbn [table_get] in H; [discriminate|].
+  destruct s as [k0|].
+  - destruct (tcb_match k0 sip dip sp dp) eqn:E.
+    + inversion H; subst. rewrite Nat.sub_diag. repeat split; auto. intros m Hm; lia.
+    + apply IH in H. destruct H as (H1 & H2 & H3 & H4).
+      replace (j - i0)%nat with (S (j - S i0)) by lia. repeat split; auto; try lia.
+      intros [|m] Hm; cbn; [exact E|]. apply H4; lia.
+  - apply IH in H. destruct H as (H1 & H2 & H3 & H4).
+    replace (j - i0)%nat with (S (j - S i0)) by lia. repeat split; auto; try lia.
+    intros [|m] Hm; cbn; [exact I|]. apply H4; lia.
+Qed.
+
+Lemma table_get_none t sip dip sp dp : forall i0,
+  table_get t i0 sip dip sp dp = None <->
+  Forall (fun s => match s with Some k' => tcb_match k' sip dip sp dp = false | None => True end) t.
+Proof.
+  induction t as [|s r IH]; intros i0; cbn [table_get].
+  - split; [constructor|reflexivity].
+  - destruct s as [k0|].
+    + destruct (tcb_match k0 sip dip sp dp) eqn:E.
+      * split; [discriminate|]. intros H; inversion H; subst. congruence.
+      * rewrite IH. split; [intros H; constructor; assumption|intros H; inversion H; assumption].
+    + rewrite IH. split; [intros H; constructor; [exact I|assumption]|intros H; inversion H; assumption].
+Qed.
+
+(* ---- OFill: the linear form used by the checker equals the n Adds ---- *)
+
+Lemma find_free_app_none t k : forall i,
+  find_free t i = None -> k_state k <> S_TIMEWAIT -> find_free (t ++ [Some k]) i = None.
+Proof.
+  intros i H N. apply find_free_none. apply find_free_none in H.
+  apply Forall_app; split; [exact H|]. constructor; [exists k; auto|constructor].
+Qed.
+
+Lemma spec_state e i now : k_state (tcb_of_spec (spec_shift e i) now) = es_state e.
+Proof. reflexivity. Qed.
+
+Lemma fill_iter_fast cap now e : es_state e <> S_TIMEWAIT -> forall n t i ok first last,
+  find_free t O = None -> zlen t + Z.of_nat n <= cap ->
+  fill_iter cap t now e i n ok first last =
+    (ok + Z.of_nat n,
+     (if first <? 0 then (match n with O => first | S _ => zlen t end) else first),
+     (match n with O => last | S _ => zlen t + Z.of_nat n - 1 end),
+     t ++ fast_entries now e i n).
+Proof.
+  intros Hs. induction n as [|n IH]; intros t i ok first last Hf Hc.
+  - cbn [fill_iter fast_entries]. rewrite app_nil_r, Z.add_0_r. destruct (first <? 0); reflexivity.
+  - cbn [fill_iter fast_entries]. unfold table_add. rewrite Hf.
+    destruct (zlen t <? cap) eqn:E; [|lia].
+    rewrite IH.
+    + rewrite <- app_assoc. cbn [app]. rewrite zlen_app.
+      match goal with |- context [zlen [?x]] => replace (zlen [x]) with 1 by reflexivity end.
+      pose proof (zlen_nonneg t). change (Z.of_nat (length t)) with (zlen t).
+      assert (A : ok + 1 + Z.of_nat n = ok + Z.of_nat (S n)) by lia.
+      assert (B : (if (if first <? 0 then zlen t else first) <? 0
+                   then match n with O => (if first <? 0 then zlen t else first) | S _ => zlen t + 1 end
+                   else (if first <? 0 then zlen t else first)) =
+                  (if first <? 0 then zlen t else first)).
+      { destruct (first <? 0) eqn:E1.
+        - destruct (zlen t <? 0) eqn:E2; [lia|reflexivity].
+        - rewrite E1. reflexivity. }
+      assert (C : match n with O => zlen t | S _ => zlen t + 1 + Z.of_nat n - 1 end = zlen t + Z.of_nat (S n) - 1)
+        by (destruct n; lia).
+      rewrite A, B, C. reflexivity.
+    + apply find_free_app_none; [exact Hf|rewrite spec_state; exact Hs].
+    + rewrite zlen_app.
+      match goal with |- context [zlen [?x]] => replace (zlen [x]) with 1 by reflexivity end. lia.
+Qed.
+
+Lemma fill_model_eq cap t now e n :
+  fill_model cap t now e n = fill_iter cap t now e 0 n 0 (-1) (-1).
+Proof.
+  unfold fill_model. destruct (find_free t 0) eqn:Ef; [reflexivity|].
+  destruct n as [|n]; [reflexivity|].
+  destruct ((zlen t + Z.of_nat (S n) <=? cap) && negb (es_state e =? S_TIMEWAIT)) eqn:E; [|reflexivity].
+  apply andb_true_iff in E. destruct E as [E1 E2].
+  rewrite (fill_iter_fast cap now e ltac:(lia) (S n) t 0 0 (-1) (-1) Ef ltac:(lia)).
+  reflexivity.
+Qed.
+
+Lemma top_step_fast_eq cap t now o : top_step_fast cap t now o = top_step cap t now o.
+Proof. destruct o; try reflexivity. cbn [top_step_fast top_step]. rewrite fill_model_eq. reflexivity. Qed.
+
+Lemma top_run_fast_eq cap : forall ops t, top_run_fast cap t ops = top_run cap t ops.
+Proof.
+  induction ops as [|[now o] r IH]; intros t; cbn [top_run_fast top_run]; [reflexivity|].
+  rewrite top_step_fast_eq. destruct (top_step cap t now o) as [ob t1]. rewrite IH. reflexivity.
+Qed.
+
+(* ---- every operation history keeps the table inside the array ---- *)
+
+Lemma fill_iter_len cap now e : forall n t i ok first last,
+  zlen t <= cap ->
+  let '(_, _, _, t') := fill_iter cap t now e i n ok first last in zlen t' <= cap.
+Proof.
+  induction n as [|n IH]; intros t i ok first last Hc; cbn [fill_iter]; [exact Hc|].
+  destruct (table_add cap t now _) as [[s t1]|] eqn:Ea.
+  - apply table_add_len in Ea. apply IH. lia.
+  - apply IH. exact Hc.
+Qed.
+
+Lemma top_step_len cap t now o : zlen t <= cap -> zlen (snd (top_step cap t now o)) <= cap.
+Proof.
+  intros Hc. destruct o; cbn [top_step].
+  - destruct (table_add cap t now _) as [[s t1]|] eqn:Ea; cbn [snd]; [|exact Hc].
+    apply table_add_len in Ea. lia.
+  - pose proof (fill_iter_len cap now e n t 0 0 (-1) (-1) Hc) as H.
+    destruct (fill_iter cap t now e 0 n 0 (-1) (-1)) as [[[a b] c] t']. exact H.
+  - destruct (table_get t 0 sip dip sport dport) as [[s ?]|]; exact Hc.
+  - destruct (slot_of t slot); cbn [snd]; rewrite ?zlen_set_nth; exact Hc.
+  - destruct (slot_of t slot); cbn [snd]; rewrite ?zlen_set_nth; exact Hc.
+  - exact Hc.
+Qed.
+
+Lemma top_run_len cap : forall ops t, zlen t <= cap -> zlen (snd (top_run cap t ops)) <= cap.
+Proof.
+  induction ops as [|[now o] r IH]; intros t Hc; cbn [top_run]; [exact Hc|].
+  pose proof (top_step_len cap t now o Hc) as H1.
+  destruct (top_step cap t now o) as [ob t1]. cbn [snd] in H1.
+  specialize (IH t1 H1). destruct (top_run cap t1 r) as [obs t2]. exact IH.
+Qed.
